@@ -272,12 +272,13 @@ class Sweep:
                 else:
                     dims.extend(list(other.items.keys()))
 
+        sweeps = (self, *others)
         return Sweep(
             items,
             dims=dims,
-            exclude=_combined_exclude(self.exclude, other.exclude),
-            constants=_combine_dicts(self.constants, other.constants),  # type: ignore[arg-type]
-            derivers=_combine_dicts(self.derivers, other.derivers),  # type: ignore[arg-type]
+            exclude=_combined_exclude(*(s.exclude for s in sweeps)),
+            constants=_combine_dicts(*(s.constants for s in sweeps)),  # type: ignore[arg-type]
+            derivers=_combine_dicts(*(s.derivers for s in sweeps)),  # type: ignore[arg-type]
         )
 
     def add_derivers(self, **derivers: Callable[[dict[str, Any]], Any]) -> Sweep:
